@@ -98,6 +98,8 @@ from harness import fullstack as FS  # noqa: E402
 FS_CONFIGS = {
     "fs-dilating-reorder": dict(app=True, reorder=True, max_mdrops=2),
     "fs-dilating-late-old-peer": dict(app=True, old_peer=True, dilate_when="late"),
+    # a NEWER peer: it dilates, but the only dilation version it offers is one we do not know (disjoint can-dilate lists)
+    "fs-disjoint-dilation-versions": dict(app=True, disjoint=True),
 }
 
 
